@@ -11,21 +11,22 @@ import (
 
 // issueToFinding: the model's predicted non-compiling constructs, each a listed known-finding class.
 var issueToFinding = map[string]string{
-	"mod-named-type":          "K19-multipleOf-named-number",
-	"duplicate-method":        "K21-composite-definition",
-	"default-literal":         "K4-default-literal",
-	"duplicate-enum-constant": "K5-enum-constant-collision",
-	"addl-raw-undeclared":     "K24-addl-raw-undeclared",
-	"int-literal-overflow":    "K25-int-literal-overflow",
-	"missing-import":          "K26-format-pointer-import",
-	"backtick-in-pattern":     "K5-backtick-in-text",
+	"mod-named-type":              "K19-multipleOf-named-number",
+	"duplicate-method":            "K21-composite-definition",
+	"default-literal":             "K4-default-literal",
+	"duplicate-enum-constant":     "K5-enum-constant-collision",
+	"addl-raw-undeclared":         "K24-addl-raw-undeclared",
+	"int-literal-overflow":        "K25-int-literal-overflow",
+	"missing-import":              "K26-format-pointer-import",
+	"backtick-in-pattern":         "K5-backtick-in-text",
+	"anyof-branch-without-method": "K27-anyOf-ref-without-method",
 }
 
 // where the model does not cover a program (unsupported), a compile failure is attributed by its message
 var compileErrToFinding = []struct{ pat, id string }{
 	{"undefined: netip", "K26-format-pointer-import"}, {"undefined: types", "K26-format-pointer-import"}, {"undefined: time", "K26-format-pointer-import"},
 	{"in argument to math.Mod", "K19-multipleOf-named-number"}, {"already declared", "K21-composite-definition"}, {"redeclared in this block", "K21-composite-definition"}, {"undefined: raw", "K24-addl-raw-undeclared"},
-	{"overflows", "K25-int-literal-overflow"},
+	{"overflows", "K25-int-literal-overflow"}, {".UnmarshalJSON undefined", "K27-anyOf-ref-without-method"}, {".UnmarshalYAML undefined", "K27-anyOf-ref-without-method"},
 }
 
 var hostileTexts = []string{
@@ -68,9 +69,9 @@ func init() {
 			"fmt-date": {"type": "string", "format": "date"}, "fmt-ip": {"type": "string", "format": "ipv4"}, "fmt-dt": {"type": "string", "format": "date-time"},
 			"obj": {"type": "object", "properties": sgen.M{"x": sgen.M{"type": "integer", "minimum": 2}}, "required": []any{"x"}},
 			"map": {"type": "object", "additionalProperties": sgen.M{"type": "integer"}}, "null": {"type": "null"}, "any": {},
-			"addl-true": {"type": "object", "properties": sgen.M{"x": sgen.M{"type": "string", "minLength": 2}}, "additionalProperties": true},
+			"addl-true":  {"type": "object", "properties": sgen.M{"x": sgen.M{"type": "string", "minLength": 2}}, "additionalProperties": true},
 			"addl-typed": {"type": "object", "properties": sgen.M{"x": sgen.M{"type": "string"}}, "additionalProperties": sgen.M{"type": "string"}},
-			"ext-type": {"goJSONSchema": sgen.M{"type": "uint32"}}, "ext-ident": {"type": "string", "goJSONSchema": sgen.M{"identifier": "CustomName"}},
+			"ext-type":   {"goJSONSchema": sgen.M{"type": "uint32"}}, "ext-ident": {"type": "string", "goJSONSchema": sgen.M{"identifier": "CustomName"}},
 		}
 		names := core.SortedKeys(kinds)
 		for i, a := range names {
